@@ -91,12 +91,19 @@ func Files(repo string, maxSize int64) ([]File, int) {
 
 // Variant is one member of the mutation family of a file.
 type Variant struct {
-	Kind string // intact | trunc | set00 | setff
+	Kind string // intact | trunc | set00 | setff | app00 | appff | appsp (At bytes appended)
 	At   int
 }
 
 func (v Variant) Apply(data []byte) []byte {
 	switch v.Kind {
+	case "app00", "appff", "appsp":
+		fill := map[string]byte{"app00": 0x00, "appff": 0xff, "appsp": ' '}[v.Kind]
+		d := append([]byte{}, data...)
+		for i := 0; i < v.At; i++ {
+			d = append(d, fill)
+		}
+		return d
 	case "trunc":
 		if v.At < len(data) {
 			return append([]byte{}, data[:v.At]...)
@@ -120,7 +127,9 @@ func (v Variant) Apply(data []byte) []byte {
 // Variants: intact, every prefix length 0..maxPrefix, prefixes ending at the given
 // field boundaries (bytes) and 00/ff overwrites at those boundaries.
 func Variants(size int, maxPrefix int, boundaries []int, maxBoundaries int) []Variant {
-	vs := []Variant{{Kind: "intact"}}
+	// trailing data: padding that a container, a block device or a careless writer leaves
+	// behind the format (zero bytes, ones, blanks; one byte and a 9 byte run)
+	vs := []Variant{{Kind: "intact"}, {"app00", 1}, {"app00", 9}, {"appff", 1}, {"appff", 9}, {"appsp", 1}, {"appsp", 9}}
 	seen := map[int]bool{}
 	for l := 0; l <= maxPrefix && l < size; l++ {
 		vs = append(vs, Variant{"trunc", l})
